@@ -9,19 +9,22 @@
    cfg  = [mutex kind; initial value of X; initial value of Y; payload kind (0 instrumented, otherwise plain)]
    ops  = c ...          operation c of the wrapper driver on X          (K_INVOKE value c)
           100 + c ...    the same on Y                                   (K_INVOKE value 100 + c)
-          50 fid c ...   X.modify(f) where f = { user_call(fid); Y.<op c ...>; ++x; }, c one of modify / read / load *)
+          50 fid c ...   X.modify(f) where f = { user_call(fid); Y.<op c ...>; ++x; }, c one of modify / read / load
+          60             X = Y   (instrumented payload kind only: the generator never uses it with a plain payload) *)
 From Coq Require Import List Arith ZArith Bool.
 Import ListNotations.
 From GV Require Import Sched Events WrapperModel.
 Local Open Scope Z_scope.
 
-Inductive op2 := OnX (o : op) | OnY (o : op) | Nested (fid : Z) (inner : op).
+Inductive op2 := OnX (o : op) | OnY (o : op) | Nested (fid : Z) (inner : op)
+| AssignXY.   (* `X = Y;` : X.operator=(Y&) -> m_obj = Y, i.e. Y's operator T() (under Y's lock) inside X's lock *)
 
 Definition inner_ok (o : op) : bool := match o with Modify _ | ReadF _ | Load => true | _ => false end.
 Definition decode_op2 (z : list Z) : option op2 :=
   match z with
   | [] => None
   | c :: r =>
+    if c =? 60 then Some AssignXY else
     if c =? 50 then
       match r with
       | fid :: inner =>
@@ -37,7 +40,8 @@ Definition decode_op2 (z : list Z) : option op2 :=
 
 (* lX / lY: the thread's state in X's and in Y's automaton (their own program fields hold at most the operation
    being executed); nest: the inner call the functor of the current X.modify will make *)
-Record loc2 := Loc2 { prog2 : list op2; lX : loc; lY : loc; nest : option op }.
+(* xf: the inner call is the conversion of `X = Y`: it starts right after X's lock, and its result is the value X assigns *)
+Record loc2 := Loc2 { prog2 : list op2; lX : loc; lY : loc; nest : option op; xf : bool }.
 Record glob2 := Glob2 { gX : glob; gY : glob }.
 
 (* events of Y are told apart from those of X by their object ids *)
@@ -53,6 +57,15 @@ Definition with_op (l : loc) (o : op) : loc := Loc [o] Idle (slots l).
 Definition at_functor_call (l : loc) : bool :=
   match at_ l with Run (FGuard (Modify _) _) (MCall _ _ :: _) _ _ _ => true | _ => false end.
 
+Definition at_gacq (l : loc) : bool := match at_ l with GAcq _ => true | _ => false end.
+(* the value X.operator= will assign becomes known when Y's conversion returns *)
+Definition patch (l : loc) (v : Z) : loc :=
+  match at_ l with
+  | Run fr [MCall f s; MWrite Obj (Const _)] ph r ok => Loc (prog l) (Run fr [MCall f s; MWrite Obj (Const v)] ph r ok) (slots l)
+  | _ => l
+  end.
+Definition ret_of (l : loc) : option Z := match at_ l with GRel _ _ rv false => Some rv | _ => None end.
+
 Definition tstep2 (cx cy : config) (t c : nat) (g : glob2) (l : loc2) : option (glob2 * loc2 * list ev) :=
   if negb (idle (lY l)) then
     (* a call on Y is in progress: a top-level one, or the inner call of a nested functor (then X's pc is inside
@@ -60,7 +73,8 @@ Definition tstep2 (cx cy : config) (t c : nat) (g : glob2) (l : loc2) : option (
     match tstep cy t c (gY g) (lY l) with
     | None => None
     | Some (gY', lY', es) =>
-      Some (Glob2 (gX g) gY', Loc2 (prog2 l) (lX l) lY' (nest l),
+      let lX1 := if xf l && idle lY' then match ret_of (lY l) with Some rv => patch (lX l) rv | None => lX l end else lX l in
+      Some (Glob2 (gX g) gY', Loc2 (prog2 l) lX1 lY' (nest l) (xf l && negb (idle lY')),
             map shiftY (if idle (lX l) then es else drop_kind K_RET es))
     end
   else if negb (idle (lX l)) then
@@ -69,15 +83,15 @@ Definition tstep2 (cx cy : config) (t c : nat) (g : glob2) (l : loc2) : option (
     | Some (gX', lX', es) =>
       match nest l with
       | Some inner =>
-        if at_functor_call (lX l) then
+        if (if xf l then at_gacq (lX l) else at_functor_call (lX l)) then
           (* the nested functor has been invoked: it enters the call on Y at once (no scheduling point in between) *)
           match tstep cy t c (gY g) (with_op (lY l) inner) with
           | None => None
           | Some (gY', lY', esY) =>
-            Some (Glob2 gX' gY', Loc2 (prog2 l) lX' lY' None, es ++ map shiftY (drop_kind K_INVOKE esY))
+            Some (Glob2 gX' gY', Loc2 (prog2 l) lX' lY' None (xf l), es ++ map shiftY (drop_kind K_INVOKE esY))
           end
-        else Some (Glob2 gX' (gY g), Loc2 (prog2 l) lX' (lY l) (nest l), es)
-      | None => Some (Glob2 gX' (gY g), Loc2 (prog2 l) lX' (lY l) None, es)
+        else Some (Glob2 gX' (gY g), Loc2 (prog2 l) lX' (lY l) (nest l) (xf l), es)
+      | None => Some (Glob2 gX' (gY g), Loc2 (prog2 l) lX' (lY l) None (xf l), es)
       end
     end
   else
@@ -86,18 +100,23 @@ Definition tstep2 (cx cy : config) (t c : nat) (g : glob2) (l : loc2) : option (
     | OnX o :: r =>
       match tstep cx t c (gX g) (with_op (lX l) o) with
       | None => None
-      | Some (gX', lX', es) => Some (Glob2 gX' (gY g), Loc2 r lX' (lY l) None, es)
+      | Some (gX', lX', es) => Some (Glob2 gX' (gY g), Loc2 r lX' (lY l) None false, es)
       end
     | OnY o :: r =>
       match tstep cy t c (gY g) (with_op (lY l) o) with
       | None => None
       | Some (gY', lY', es) =>
-        Some (Glob2 (gX g) gY', Loc2 r (lX l) lY' None, map shiftY (set_invoke (opcode o + 100) es))
+        Some (Glob2 (gX g) gY', Loc2 r (lX l) lY' None false, map shiftY (set_invoke (opcode o + 100) es))
       end
     | Nested fid inner :: r =>
       match tstep cx t c (gX g) (with_op (lX l) (Modify fid)) with
       | None => None
-      | Some (gX', lX', es) => Some (Glob2 gX' (gY g), Loc2 r lX' (lY l) (Some inner), set_invoke 50 es)
+      | Some (gX', lX', es) => Some (Glob2 gX' (gY g), Loc2 r lX' (lY l) (Some inner) false, set_invoke 50 es)
+      end
+    | AssignXY :: r =>
+      match tstep cx t c (gX g) (with_op (lX l) (Assign 0)) with
+      | None => None
+      | Some (gX', lX', es) => Some (Glob2 gX' (gY g), Loc2 r lX' (lY l) (Some Cast) true, set_invoke 60 es)
       end
     end.
 
@@ -106,7 +125,7 @@ Definition fin2 (l : loc2) : bool :=
 
 Definition init_loc : loc := Loc [] Idle (repeat None NSLOTS).
 Definition init2 (cx cy : config) (progs : list (list op2)) : sys glob2 loc2 :=
-  Sys (Glob2 (gl (init cx [])) (gl (init cy []))) (map (fun p => Loc2 p init_loc init_loc None) progs).
+  Sys (Glob2 (gl (init cx [])) (gl (init cy []))) (map (fun p => Loc2 p init_loc init_loc None false) progs).
 
 (* ---------- entry point of the correspondence check ---------- *)
 Fixpoint decode_prog2 (p : list (list Z)) : list op2 :=
